@@ -150,6 +150,7 @@ type command struct {
 	noopEnd bool
 	noopOpaque uint32
 	collect *bool // when set, expect() conjoins its conditions here instead of asserting them
+	refAt   []*model.Store // get only: the map state each key position is read from (per-key linearization)
 }
 
 func (c *command) ck(id string, cond bool) {
@@ -167,18 +168,33 @@ func newCommand(p string, nk, dlen, maxGetKeys int) *command {
 	} else {
 		c.kind = rt.Choice(p+"cmd", nCmds)
 	}
+	// optional fixing of choices through parameters (p+"nkeys", p+"getkey<j>", p+"getquiet", p+"key")
+	pick := func(name string, n int) int {
+		if v := rt.Param(name, -1); v >= 0 {
+			return v
+		}
+		return rt.Choice(name, n)
+	}
 	if c.kind == cmdGet {
-		n := 1 + rt.Choice(p+"nkeys", maxGetKeys)
+		n := 1 + pick(p+"nkeys", maxGetKeys)
 		for j := 0; j < n; j++ {
-			c.keys = append(c.keys, rt.Choice(p+"getkey", nk))
+			k := rt.Param(p+"getkey"+string(rune('0'+j)), -1)
+			if k < 0 {
+				k = rt.Choice(p+"getkey", nk)
+			}
+			c.keys = append(c.keys, k)
 			c.opaques = append(c.opaques, rt.U32(p+"getopaque"))
-			c.quiets = append(c.quiets, rt.Bool(p+"getquiet"))
+			if q := rt.Param(p+"getquiet", -1); q >= 0 {
+				c.quiets = append(c.quiets, q == 1)
+			} else {
+				c.quiets = append(c.quiets, rt.Bool(p+"getquiet"))
+			}
 		}
 		c.noopEnd = rt.Bool(p + "noopend")
 		c.noopOpaque = rt.U32(p + "noopopaque")
 		return c
 	}
-	c.key = rt.Choice(p+"key", nk)
+	c.key = pick(p+"key", nk)
 	c.flags = rt.U32(p + "flags")
 	c.ttl = rt.U32(p + "ttl")
 	c.opaque = rt.U32(p + "opaque")
@@ -239,7 +255,11 @@ func (c *command) expect(ref *model.Store, now int64, log []model.Reply, p strin
 			if r.Kind != "get" || r.Key != c.keys[j] {
 				return false
 			}
-			hit, data, flags := ref.Get(c.keys[j])
+			src := ref
+			if c.refAt != nil {
+				src = c.refAt[j]
+			}
+			hit, data, flags := src.Get(c.keys[j])
 			ok := rt.And(r.Opaque == c.opaques[j], r.Quiet == c.quiets[j])
 			if r.Miss {
 				return rt.And(ok, !hit)
